@@ -69,6 +69,57 @@ theorem charpoly_inv_eq_of_symplectic (Φ Ω : Matrix n n ℝ) (hΩ : IsUnit Ω.
   · calc (Ω⁻¹ * Φᵀ * Ω).charpoly = (Φᵀ).charpoly := charpoly_units_conj' (Matrix.nonsingInvUnit Ω hΩ) Φᵀ
       _ = Φ.charpoly := charpoly_transpose Φ
 
+/-- **variational_solution_transport** (no ODE-uniqueness theorem needed): let `Φ' = F(t)Φ`, `Φ(0) = I`, with every `F(t)`
+infinitesimally symplectic for an invertible `Ω`, and let `v` be ANY solution of the same linear system `v' = F(t) v`.
+Then `v(t) = Φ(t) v(0)` for all `t`.  (`ΦᵀΩ v` has derivative `Φᵀ(FᵀΩ + ΩF)v = 0`, and `ΦᵀΩ` is invertible because
+`ΦᵀΩΦ = Ω`.) -/
+theorem variational_solution_transport (Φ F : ℝ → Matrix n n ℝ) (Ω : Matrix n n ℝ) (hΩ : IsUnit Ω.det)
+    (hΦ : ∀ t i j, HasDerivAt (fun s => Φ s i j) ((F t * Φ t) i j) t)
+    (hF : ∀ t, (F t)ᵀ * Ω + Ω * F t = 0) (hI : Φ 0 = 1)
+    (v : ℝ → n → ℝ) (hv : ∀ t i, HasDerivAt (fun s => v s i) ((F t).mulVec (v t) i) t) (t : ℝ) :
+    v t = (Φ t).mulVec (v 0) := by
+  -- w(s) = Φ(s)ᵀ Ω v(s) is constant
+  have hd : ∀ i t, HasDerivAt (fun s => (((Φ s)ᵀ * Ω).mulVec (v s)) i) 0 t := by
+    intro i t
+    have key : (((F t * Φ t)ᵀ * Ω).mulVec (v t) + ((Φ t)ᵀ * Ω).mulVec ((F t).mulVec (v t))) i = 0 := by
+      have e : ((F t * Φ t)ᵀ * Ω).mulVec (v t) + ((Φ t)ᵀ * Ω).mulVec ((F t).mulVec (v t))
+          = ((Φ t)ᵀ * ((F t)ᵀ * Ω + Ω * F t)).mulVec (v t) := by
+        rw [Matrix.mulVec_mulVec, ← Matrix.add_mulVec]
+        simp only [transpose_mul, Matrix.mul_add, Matrix.mul_assoc]
+      rw [e, hF t]; simp
+    have hder : HasDerivAt (fun s => (((Φ s)ᵀ * Ω).mulVec (v s)) i)
+        ((((F t * Φ t)ᵀ * Ω).mulVec (v t) + ((Φ t)ᵀ * Ω).mulVec ((F t).mulVec (v t))) i) t := by
+      simp only [Matrix.mulVec, dotProduct, Matrix.mul_apply, Matrix.transpose_apply, Pi.add_apply]
+      rw [← Finset.sum_add_distrib]
+      refine HasDerivAt.fun_sum fun k _ => ?_
+      have hin : HasDerivAt (fun s => ∑ l, Φ s l i * Ω l k) (∑ l, (∑ x, F t l x * Φ t x i) * Ω l k) t :=
+        HasDerivAt.fun_sum fun l _ => by
+          have := (hΦ t l i).mul_const (Ω l k)
+          simpa [Matrix.mul_apply] using this
+      have h2 := hv t k
+      simp only [Matrix.mulVec, dotProduct] at h2
+      exact hin.fun_mul h2
+    rw [key] at hder
+    exact hder
+  have hconst : ((Φ t)ᵀ * Ω).mulVec (v t) = ((Φ 0)ᵀ * Ω).mulVec (v 0) := by
+    ext i
+    exact is_const_of_deriv_eq_zero (fun s => (hd i s).differentiableAt) (fun s => (hd i s).deriv) t 0
+  have hs : (Φ t)ᵀ * Ω * Φ t = Ω := by
+    have := symplectic_form_preserved Φ F Ω hΦ hF t 0
+    rw [this, hI]; simp
+  -- ΦᵀΩ is invertible
+  have hdet : IsUnit ((Φ t)ᵀ * Ω).det := by
+    have hsq := det_sq_eq_one_of_symplectic (Φ t) Ω hΩ hs
+    rw [det_mul, det_transpose]
+    refine IsUnit.mul ?_ hΩ
+    refine isUnit_iff_ne_zero.mpr fun h0 => ?_
+    rw [h0] at hsq; norm_num at hsq
+  have h1 : ((Φ t)ᵀ * Ω).mulVec (v t) = ((Φ t)ᵀ * Ω).mulVec ((Φ t).mulVec (v 0)) := by
+    rw [hconst, hI, Matrix.mulVec_mulVec, hs]; simp
+  have := congrArg (((Φ t)ᵀ * Ω)⁻¹).mulVec h1
+  rw [Matrix.mulVec_mulVec, Matrix.mulVec_mulVec, Matrix.nonsing_inv_mul _ hdet, Matrix.one_mulVec, Matrix.one_mulVec] at this
+  exact this
+
 /-- time reversal of an autonomous solution: if `y' = −g(y)` then `t ↦ y(−t)` solves `z' = g(z)` -/
 theorem reversed_solution {E : Type} [NormedAddCommGroup E] [NormedSpace ℝ E] (g : E → E) (y : ℝ → E)
     (hy : ∀ s, HasDerivAt y (-(g (y s))) s) (t : ℝ) :
